@@ -150,17 +150,45 @@ def main_done(ctx, r):
     f = rt_fn(ctx, r, "finish_thread_turn")
     if f is None:
         return
-    trues = []
-    for x in q.walk(f["body"]):
-        if x["k"] == "Return" and x.get("e") is not None and q.show(x["e"]) == "true":
-            trues.append(x)
-    conds = []
-    for x in q.walk(f["body"]):
-        if x["k"] == "If" and any(y in trues for y in q.walk(x["t"])):
-            conds.append(q.show(x["c"]).replace(" ", ""))
+    # path condition of every `return true`, evaluated over the truth table of (is_main, done)
+    def path_conds(target):
+        out = []
+        for c in q.walk(f["body"]):
+            if c["k"] == "If":
+                if any(y is target for y in q.walk(c["t"])):
+                    out.append((c["c"], True))
+                elif c.get("e") is not None and any(y is target for y in q.walk(c["e"])):
+                    out.append((c["c"], False))
+        return out
+
+    def ev(e, env):
+        while e["k"] == "Paren":
+            e = e["e"]
+        if e["k"] == "Binary" and e["op"] in ("&&", "||"):
+            a, b = ev(e["a"], env), ev(e["b"], env)
+            return (a and b) if e["op"] == "&&" else (a or b)
+        if e["k"] == "Unary" and e.get("op") in ("!", "Not"):
+            return not ev(e["e"], env)
+        t = q.show(e).replace(" ", "")
+        if t in env:
+            return env[t]
+        raise ValueError(t)
+
+    trues = [x for x in q.walk(f["body"]) if x["k"] == "Return" and x.get("e") is not None and q.show(x["e"]) == "true"]
     tail = q.body_stmts(f["body"])[-1]
-    ok = len(trues) == 1 and conds and conds[-1] in ("(thread.is_main&&thread.done)", "(thread.done&&thread.is_main)") and q.show(tail.get("e")) == "false"
-    r.ob(ok, "vm.rs:finish_thread_turn:completion-condition", VM, f["l"], f"finish_thread_turn must return true exactly for `thread.is_main && thread.done` (returns true under {conds})", sample=f"finish_thread_turn: true iff {conds}")
+    table = {}
+    ok = bool(trues) and q.show(tail.get("e")) == "false"
+    try:
+        for im in (False, True):
+            for dn in (False, True):
+                env = {"thread.is_main": im, "thread.done": dn}
+                table[(im, dn)] = any(all(ev(c, env) == pol for c, pol in path_conds(t)) for t in trues)
+        ok = ok and table == {(False, False): False, (False, True): False, (True, False): False, (True, True): True}
+    except ValueError as e:
+        ok = False
+        table = f"not evaluable: {e}"
+    conds = table
+    r.ob(ok, "vm.rs:finish_thread_turn:completion-condition", VM, f["l"], f"finish_thread_turn must return true exactly for `thread.is_main && thread.done` (truth table over (is_main, done): {conds})", sample="finish_thread_turn: true iff is_main && done (truth table)")
     saved = any(x["k"] == "Assign" and q.show(x["a"]) == "self.finished_main_thread" for x in q.walk(f["body"]))
     r.ob(saved, "vm.rs:finish_thread_turn:main-thread-dropped", VM, f["l"], "the finished main thread must be kept (its stack top is the program's result)")
     # callers propagate: they return at once, and where their result carries a completion flag it is `true`
